@@ -33,8 +33,8 @@ SOUND.append(("felt252_mul", "felt_binop_sound fmul", "Mul"))
 for u in UPCASTS:
     SOUND.append((u, "ident_sound", "Mul"))
 for w in WS[:4]:
-    SOUND.append((f"u{w}_safe_divmod", f"udivmod_sound {w} 3", "DivMod"))
-SOUND.append(("u128_safe_divmod", "udivmod_sound 128 4", "DivMod"))
+    SOUND.append((f"u{w}_safe_divmod", f"udivmod_sound {w} 3", f"DivMod_u{w}"))
+SOUND.append(("u128_safe_divmod", "udivmod_sound 128 4", "DivMod_u128"))
 for w in WS:
     SOUND.append((f"u{w}_sqrt", f"usqrt_sound {w}", "Sqrt"))
 for w in WS:
@@ -93,10 +93,13 @@ def c03():
     for w, st, _ in SOUND:
         out += "Theorem C03_%s : %s code_%s entry_%s.\nProof. exact %s_sound. Qed.\n" % (w, st, w, w, w)
     out += "\n" + open(os.path.join(ROOT, "props", "c03_tail.v")).read()
-    out += "Print Assumptions C03_symex_sound.\n"
-    for w, _, _ in SOUND:
+    # one bundle holding every theorem above: its assumptions are the union of theirs
+    out += "Definition C03_all_theorems :=\n  (" + ",\n   ".join(["C03_symex_sound"] + ["C03_%s" % w for w, _, _ in SOUND]
+                                                             + ["C03_u8_overflowing_add_unfolded", "C03_example"]) + ").\n"
+    out += "Print Assumptions C03_all_theorems.\n"
+    for w in ("symex_sound", "u8_overflowing_add", "u128_safe_divmod", "i64_overflowing_sub", "u8_try_from_felt252",
+              "u8_overflowing_add_unfolded", "example"):
         out += "Print Assumptions C03_%s.\n" % w
-    out += "Print Assumptions C03_u8_overflowing_add_unfolded.\nPrint Assumptions C03_example.\n"
     open(os.path.join(ROOT, "coq", "Props", "C03.v"), "w").write(out)
 
 
@@ -111,8 +114,11 @@ def c06():
         out += "Theorem C06_%s_sound : %s code_%s entry_%s.\nProof. exact %s_sound. Qed.\n" % (w, s_st, w, w, w)
         out += "Theorem C06_%s_complete : %s code_%s entry_%s.\nProof. exact %s_complete. Qed.\n" % (w, st, w, w, w)
     out += "\n" + open(os.path.join(ROOT, "props", "c06_tail.v")).read()
-    for w, _, _ in COMPLETE:
-        out += "Print Assumptions C06_%s_sound.\nPrint Assumptions C06_%s_complete.\n" % (w, w)
+    out += "Definition C06_all_theorems :=\n  (" + ",\n   ".join(
+        ["C06_%s_sound, C06_%s_complete" % (w, w) for w, _, _ in COMPLETE]
+        + ["C06_u8_overflowing_add_complete_unfolded", "C06_example"]) + ").\n"
+    out += "Print Assumptions C06_all_theorems.\n"
+    out += "Print Assumptions C06_u8_overflowing_add_complete.\nPrint Assumptions C06_i8_overflowing_sub_complete.\n"
     out += "Print Assumptions C06_u8_overflowing_add_complete_unfolded.\nPrint Assumptions C06_example.\n"
     open(os.path.join(ROOT, "coq", "Props", "C06.v"), "w").write(out)
 
